@@ -169,11 +169,15 @@ static void one_round(long r, const char* mname)
                 s.call = vrf::now();
                 try {
                     if (a.kind == 'D') {
-                        dg->modify_detach([fid, thr, hold, shp, hook](Cell& c) { (void)functor_body(c, fid, thr, hold, shp, hook.get()); });
+                        auto fn = [fid, thr, hold, shp, hook](Cell& c) { (void)functor_body(c, fid, thr, hold, shp, hook.get()); };
+                        if (fid % 2) dg->modify_detach(vrf::one_shot(fn));  // a value-category-sensitive callable, given as an rvalue
+                        else dg->modify_detach(fn);
                     } else if (a.kind == 'A') {
-                        futs_i[t].emplace_back(fid, dg->modify_async([fid, thr, hold, shp, hook](Cell& c) { return functor_body(c, fid, thr, hold, shp, hook.get()); }));
+                        auto fn = [fid, thr, hold, shp, hook](Cell& c) { return functor_body(c, fid, thr, hold, shp, hook.get()); };
+                        futs_i[t].emplace_back(fid, (fid % 2) ? dg->modify_async(vrf::one_shot(fn)) : dg->modify_async(fn));
                     } else {
-                        futs_v[t].emplace_back(fid, dg->modify_async([fid, thr, hold, shp, hook](Cell& c) { (void)functor_body(c, fid, thr, hold, shp, hook.get()); }));
+                        auto fn = [fid, thr, hold, shp, hook](Cell& c) { (void)functor_body(c, fid, thr, hold, shp, hook.get()); };
+                        futs_v[t].emplace_back(fid, (fid % 2) ? dg->modify_async(vrf::one_shot(fn)) : dg->modify_async(fn));
                     }
                 }
                 catch (const Boom& b) {
